@@ -77,6 +77,14 @@ def derive(case: dict) -> dict:
         A = [[LN2_100 * float(a) for a in row] for row in Aint]
         b = [-sum(A[i][j] * float(xs[j]) for j in range(n)) for i in range(n)]
         c = F(1, 2 ** min(ms))
+        if case.get("shift"):
+            # a parameter change between the calls moves the steady state by delta; the search restarts from y0
+            b0 = b
+            xs = [x + fr(dl) for x, dl in zip(xs, case["shift"])]
+            d = [x - y for x, y in zip(xs, matvec(C, xs))]
+            z0 = matvec(Pinv, [a - x for a, x in zip(y0, xs)])
+            return {"A": A, "b": b, "b0": b0, "C": C, "d": d, "y0": y0, "xs": xs, "tol": tol, "P": P, "z0": z0, "ms": ms,
+                    "kappa": fro(P) * fro(Pinv), "c": float(c)}
         return {"A": A, "b": b, "C": C, "d": d, "y0": y0, "xs": xs, "tol": tol, "P": P, "z0": z0, "ms": ms,
                 "kappa": fro(P) * fro(Pinv), "c": float(c)}
     if kind == "accumulate":  # dx/dt = b: no steady state
@@ -99,6 +107,11 @@ def lin_row(coef, b, *xs):
     return b + sum(c * x for c, x in zip(coef, xs))
 
 
+def lin_row_shift(coef, b, n, *args):
+    """the same row with the steady state moved by the parameters dx_j: sum_j A_ij (x_j - dx_j) + b_i"""
+    return b + sum(c * (x - dx) for c, x, dx in zip(coef, args[:n], args[n:]))
+
+
 def const_par(p):
     return 0.0 * p
 
@@ -111,8 +124,12 @@ def build_model(dv, y0_in_model):
     for nm, v in zip(names, y0_in_model):
         m.add_variable(nm, v)
     m.add_parameter("dummy", 1.0)
+    shifts = [f"dx{i}" for i in range(n)]
+    for sname in shifts:
+        m.add_parameter(sname, 0.0)
     for i in range(n):
-        m.add_reaction(f"v{i}", partial(lin_row, dv["A"][i], dv["b"][i]), args=names, stoichiometry={names[i]: 1})
+        m.add_reaction(f"v{i}", partial(lin_row_shift, dv["A"][i], dv["b0"][i] if "b0" in dv else dv["b"][i], n),
+                       args=names + shifts, stoichiometry={names[i]: 1})
     return m, names
 
 
@@ -154,6 +171,8 @@ def real_case(case: dict) -> dict:
                 sim.simulate(prior[1], steps=prior[2])
             else:
                 sim.simulate_time_course(np.linspace(0, prior[1], prior[2] + 1))
+        if case.get("shift"):  # the user changes a parameter on the same simulator, then searches again
+            sim.update_parameters({f"dx{i}": float(F(dl)) for i, dl in enumerate(case["shift"])})
         sim.simulate_to_steady_state(tolerance=tol, rel_norm=case["rel"])
         if case.get("post"):  # a later call must not wash an error away
             try:
@@ -359,14 +378,20 @@ def gen_case(rng):
     c["scan"] = c["tol_exp"] == 6 and rng.random() < 0.5  # scan.steady_state only offers the default tolerance
     # multi-step use of ONE simulator: results of an earlier call are already stored / a later call follows
     r = rng.random()
-    if r < 0.2:
-        c["prior"] = [rng.choice(["simulate", "time_course"]), rng.choice([1, 5, 20]), rng.choice([1, 3, 6])]
+    if r < 0.25:
+        # short and LONG earlier runs (longer than any search needs), optionally a parameter change in between
+        c["prior"] = [rng.choice(["simulate", "time_course"]), rng.choice([1, 5, 20, 500, 3000, 20000]), rng.choice([1, 3, 6])]
+        if c["kind"] == "stable" and rng.random() < 0.5:
+            c["shift"] = [str(rng.choice([F(1, 2), 1, 2, -F(1, 4)])) for _ in c["ms"]]
     elif r < 0.3 and c["kind"] != "stable":
         c["post"] = rng.choice([1, 5])
     return c
 
 
 FIXED = [
+    # a long time course, a parameter change that moves the steady state, then the search on the same simulator
+    {"kind": "stable", "P": [[1]], "ms": [2], "xstar": ["2"], "z0": ["3"], "tol_exp": 5, "rel": False,
+     "y0mode": "default", "scan": False, "prior": ["simulate", 3000, 3], "shift": ["2"]},
     # sequences on one simulator: a time course first, then a search that cannot succeed; and the reverse order
     {"kind": "accumulate", "b": [1], "y0": [1], "tol_exp": 6, "rel": False, "y0mode": "default", "scan": False,
      "prior": ["simulate", 5, 3]},
@@ -386,6 +411,7 @@ FIXED = [
 def shape_of(case):
     n = len(case.get("ms") or case.get("b") or case["y0"])
     seq = ":after-" + case["prior"][0] if case.get("prior") else (":then-simulate" if case.get("post") else "")
+    seq += ":param-change" if case.get("shift") else ""
     zero = ":from0" if any(F(y) == 0 for y in derive(case)["y0"]) else ""
     return f"{case['kind']}:dim{n}:tol1e-{case['tol_exp']}:{'rel' if case['rel'] else 'abs'}:{case['y0mode']}{zero}{seq}"
 
@@ -448,25 +474,43 @@ def gen_scan_case(rng):
         labels = ["run"] * n
     else:
         labels = rng.sample(range(n), n)
-    return {"scan_rows": rows, "labels": labels, "xs": rng.choice([2, 3, 5]), "x0": rng.choice([1, 4]),
-            "rel": rng.random() < 0.3, "parallel": rng.random() < 0.25}
+    c = {"scan_rows": rows, "labels": labels, "xs": rng.choice([2, 3, 5]), "x0": rng.choice([1, 4]),
+         "rel": rng.random() < 0.3, "parallel": rng.random() < 0.25}
+    if len(set(map(str, labels))) == n and rng.random() < 0.7:
+        # a persistent result cache that already holds SOME rows (an earlier run over a sub-grid), then the full scan
+        c["cached_first"] = sorted(rng.sample(range(n), rng.randint(1, n - 1)))
+    return c
 
 
 def real_scan_case(c):
     import numpy as np
     import pandas as pd
     from mxlpy import scan
+    import shutil
+    from vlib.framework import WORK
     to_scan = pd.DataFrame(c["scan_rows"], columns=["m", "b"], index=c["labels"], dtype=float)
-    with quiet():
-        sc = scan.steady_state(scan_model(float(c["xs"]), float(c["x0"])), to_scan=to_scan, parallel=c["parallel"],
-                               rel_norm=c["rel"])
-        v = sc.variables
+    cdir = WORK / f"c15-scan-{os.getpid()}"
+    shutil.rmtree(cdir, ignore_errors=True)
+    try:
+        with quiet():
+            kw = {}
+            if c.get("cached_first"):
+                from mxlpy.parallel import Cache
+                kw["cache"] = Cache(tmp_dir=cdir)
+                scan.steady_state(scan_model(float(c["xs"]), float(c["x0"])), to_scan=to_scan.iloc[c["cached_first"]],
+                                  parallel=False, rel_norm=c["rel"], **kw)
+            sc = scan.steady_state(scan_model(float(c["xs"]), float(c["x0"])), to_scan=to_scan, parallel=c["parallel"],
+                                   rel_norm=c["rel"], **kw)
+            v = sc.variables
+    finally:
+        shutil.rmtree(cdir, ignore_errors=True)
     return {"rows": [None if bool(np.isnan(x)) else float(x) for x in v["x"].to_numpy()],
             "index": [list(map(float, t)) if isinstance(t, tuple) else float(t) for t in v.index]}
 
 
 def judge_scan(ctx, c, r, ms):
-    ctx.count(c, f"scan:{len(c['scan_rows'])}rows:labels-{'unique' if len(set(map(str, c['labels']))) == len(c['labels']) else 'repeated'}")
+    ctx.count(c, f"scan:{len(c['scan_rows'])}rows:labels-{'unique' if len(set(map(str, c['labels']))) == len(c['labels']) else 'repeated'}"
+              + (":partly-cached" if c.get("cached_first") else ""))
     tol = 1e-6
     S, M = [], []
     for i, (m, b) in enumerate(c["scan_rows"]):
@@ -536,7 +580,13 @@ def run(ctx):
     Rs, Ms = evaluate(ctx, cases)
     for c, r, m in zip(cases, Rs, Ms):
         judge_case(ctx, c, r, m)
-    run_scans(ctx, [gen_scan_case(ctx.rng) for _ in range(ctx.n(16, 300))])
+    fixed_scans = [
+        # a cache that already holds rows 1 and 3 (an earlier run over a sub-grid), then the full scan
+        {"scan_rows": [[1, 0], [0, 1], [3, 0], [2, 0]], "labels": [0, 1, 2, 3], "xs": 3, "x0": 1, "rel": False,
+         "parallel": par, "cached_first": [1, 3]} for par in (False, True)
+    ] + [{"scan_rows": [[2, 0], [0, 2], [1, 0]], "labels": ["a", "b", "c"], "xs": 2, "x0": 4, "rel": False,
+          "parallel": False, "cached_first": [2]}]
+    run_scans(ctx, fixed_scans + [gen_scan_case(ctx.rng) for _ in range(ctx.n(28, 300))])
     if not ctx.proof_ok or ctx.drift:
         ctx.notes.append("proof/correspondence broken: the run above is the failing-input search")
 
